@@ -419,11 +419,11 @@ func c16Others() []CaseInst {
 			nd(I, "r0"), id)
 		return []HarnessSrc{h("VX_C16_toerror_"+id, "toerror", body)}
 	}})
-	out = append(out, CaseInst{ID: "K15", Desc: "toerror func(success string, out0 int) (int, bool)", Gen: func(g *Gen, id string) []HarnessSrc {
+	out = append(out, CaseInst{ID: "K15", Desc: "toerror func(success string, out0 int, in0 int) (int, bool)", Gen: func(g *Gen, id string) []HarnessSrc {
 		g.addFunc("c16err", c16Err)
 		body := fmt.Sprintf("\tx := %s\n\ty := %s\n\tr0 := %s\n\tsucc := vx.Nondet[bool](\"ok\")\n\tcalls := 0\n\tvar gotS string\n\tvar gotI int\n\tmyErr := error(&vxErr{1})\n"+
-			"\tf := func(success string, out0 int) (int, bool) {\n\t\tcalls++\n\t\tgotS, gotI = success, out0\n\t\treturn r0, succ\n\t}\n"+
-			"\to0, err := deriveToError%s(myErr, f)(x, y)\n\tvx.Assert(calls == 1 && gotS == x && gotI == y && o0 == r0, \"f called once with the arguments, other results passed through\")\n"+
+			"\tf := func(success string, out0 int, in0 int) (int, bool) {\n\t\tcalls++\n\t\tgotS, gotI = success, out0+in0\n\t\treturn r0, succ\n\t}\n"+
+			"\to0, err := deriveToError%s(myErr, f)(x, y, 7)\n\tvx.Assert(calls == 1 && gotS == x && gotI == y+7 && o0 == r0, \"f called once with the arguments, other results passed through\")\n"+
 			"\tvx.Assert((succ && err == nil) || (!succ && err == myErr), \"nil when f reports true, exactly the supplied error otherwise\")\n",
 			nd(S, "x"), nd(I, "y"), nd(I, "r0"), id)
 		return []HarnessSrc{h("VX_C16_toerror_"+id, "toerror", body)}
